@@ -9,5 +9,5 @@ trap 'git -C /repo checkout -- . ; git -C /repo clean -fdq' EXIT
 for id in "$@"; do
   out=$(/verif/check "$id" ${TIER:+--tier $TIER} 2>&1); rc=$?
   echo "== $id on $(basename "$P"): exit=$rc"
-  echo "$out" | grep -E "VIOLATION|KNOWN-FINDING|HARNESS-ERROR|signature:|tier=" | head -${LINES_MAX:-8}
+  echo "$out" | grep -E "VIOLATION|KNOWN-FINDING|HARNESS-ERROR|signature:|tier=" | grep -v "^KNOWN-FINDING" | head -${LINES_MAX:-8}
 done
